@@ -306,7 +306,6 @@ func runLiveCell(p *Program, step *ssa.Function, s refState, in liveInput, hs bo
 		b = mkSym(bs)
 	}
 	want := refTransition(s, in, hs)
-	firstFresh := ex.nextObj // objects allocated by the step have larger ids
 	outs := ex.Call(st, step, []Val{rp, b}, nil)
 	if ex.Budget || len(outs) == 0 {
 		res.okSim = false
@@ -383,8 +382,9 @@ func runLiveCell(p *Program, step *ssa.Function, s refState, in liveInput, hs bo
 			}
 			// the receiver may keep what it is given: the message must be freshly allocated by this step and the decoder
 			// must not keep a reference to it (a scratch buffer of the decoder is rewritten by a later message)
-			if !ex.allocatedSince(firstFresh, msg.Obj) || len(msg.Path) > 0 {
-				fail("the delivered message shares storage with the decoder (not allocated for this delivery): a message the receiver keeps is overwritten later")
+			// (a buffer allocated earlier may be handed over, provided the decoder drops every reference to it)
+			if len(msg.Path) > 0 || msg.Obj == rp.Obj || ex.isGlobalObj(msg.Obj) {
+				fail("the delivered message shares storage with the decoder (a scratch buffer inside the decoder or a package-level buffer): a message the receiver keeps is overwritten later")
 			} else if sv, ok := o.St.heap[rp.Obj].(*StructV); ok {
 				for _, fv := range sv.Fields {
 					switch x := fv.(type) {
